@@ -36,10 +36,10 @@ fn plans(types: &[Ty]) -> Vec<FuncPlan> {
         .collect()
 }
 
-pub fn prepare(types: &[Ty], cfg: &CConfig, clang: &str, level2: bool, label: &str) -> Result<Prepared, PrepErr> {
+pub fn prepare(types: &[Ty], cfg: &CConfig, clang: &str, level2: bool, label: &str, wit: Option<&str>) -> Result<Prepared, PrepErr> {
     let t0 = Instant::now();
     let funcs = plans(types);
-    let wit = world::chunk_wit(&funcs);
+    let wit = wit.map(|w| w.to_string()).unwrap_or_else(|| world::chunk_wit(&funcs));
     let (resolve, wid) = world::parse(&wit).map_err(PrepErr::Generate)?;
     let g = gen::generate(&resolve, wid, cfg).map_err(PrepErr::Generate)?;
     let hdr = hparse::parse_header(&g.h).map_err(|e| PrepErr::Machinery(format!("header: {e}")))?;
@@ -150,7 +150,8 @@ fn phase_name(p: u64) -> &'static str {
 }
 
 /// One job = one (configuration, chunk of types). Returns a JSON record (crosses `par_map`).
-pub fn job(types: &[Ty], cfg: &CConfig, clang: &str, level2: bool, label: &str, timeout_ms: u64) -> Value {
+/// `wit`: a hand-written world whose functions `fx<k>` have the types `types[k]` (no bisection then).
+pub fn job(types: &[Ty], cfg: &CConfig, clang: &str, level2: bool, label: &str, timeout_ms: u64, wit: Option<&str>) -> Value {
     let t0 = Instant::now();
     let enc = if cfg.utf16 { Enc::Utf16 } else { Enc::Utf8 };
     // reference self-check (native lowering vs refabi) on everything this chunk will send
@@ -177,7 +178,7 @@ pub fn job(types: &[Ty], cfg: &CConfig, clang: &str, level2: bool, label: &str, 
         if ts.is_empty() {
             continue;
         }
-        match prepare(&ts, cfg, clang, level2, label) {
+        match prepare(&ts, cfg, clang, level2, label, wit) {
             Ok(p) => {
                 add(&mut stats, if p.cached { "cached" } else { "built" }, 1);
                 add(&mut stats, "ms_generate", p.ms_generate);
@@ -193,7 +194,7 @@ pub fn job(types: &[Ty], cfg: &CConfig, clang: &str, level2: bool, label: &str, 
                 let describe = |f: usize, c: usize| -> Value {
                     let pl = &funcs[f];
                     let c = c.min(pl.values.len() - 1);
-                    json!({"ty": pl.ty.to_string(), "ty_json": pl.ty.to_json(), "case": c,
+                    json!({"ty": pl.ty.to_string(), "ty_json": pl.ty.to_json(), "case": c, "world": if wit.is_some() { "split-interfaces" } else { "echo" },
                            "v1": pl.values[c].to_string(), "v2": pl.answer(c).to_string(), "nodes": pl.ty.nodes()})
                 };
                 for cr in r["crashes"].as_array().unwrap() {
@@ -258,7 +259,7 @@ pub fn job(types: &[Ty], cfg: &CConfig, clang: &str, level2: bool, label: &str, 
                     };
                     eprintln!("[{label}] chunk of {} failed: {}", ts.len(), m.chars().take(600).collect::<String>());
                 }
-                if ts.len() > 1 {
+                if ts.len() > 1 && wit.is_none() {
                     let mid = ts.len() / 2;
                     work.push(ts[mid..].to_vec());
                     work.push(ts[..mid].to_vec());
